@@ -291,3 +291,39 @@ def split_on_own_phis(ctx, ev, res, e, terms):
             return None
         out.append(([term_map(t, rep) for t in terms], set(fs) | set(implied_facts(ev.guards_edge(res, o, jb)))))
     return out
+
+
+def search_roles(b, res):
+    """The four loop-carried locals of the list traversals (find_position / find_prev_and_next), found by type and data flow instead of by their
+    source names: the reference being followed, the cached word read through it, and its two halves (size = hi, next = lo)."""
+    from collections import Counter
+    cnt = Counter()
+    for blk in b.blocks:
+        for st in blk["stmts"]:
+            if not st["place"]["proj"]:
+                cnt[st["place"]["l"]] += 1
+        t = blk["term"]
+        if t["k"] == "call" and not t["dest"]["proj"]:
+            cnt[t["dest"]["l"]] += 1
+    heads = sorted(set(v for _, v in b.back_edges()))
+    roles = {}
+    if len(heads) != 1:
+        return roles
+    h = heads[0]
+    back = set(b.back_edges())
+    ins = [p for p in b.pred[h] if (p, h) not in back and p in res.env_out]
+    for i, l in enumerate(b.locals):
+        if not l["name"] or cnt[i] < 2 or i <= b.nargs:
+            continue
+        ty = l["ty"]
+        if ty.startswith("&") and re.search(r"(Atomic<u64>|UnsafeCell<u64>)$", ty):
+            roles.setdefault("current", i)
+        elif ty in ("u64", "&u64"):
+            roles.setdefault("current_node", i)
+        elif ty == "u32" and ins:
+            init = res.env_out[ins[0]].get(i)
+            if tag(init) == "hi":
+                roles.setdefault("current_node_size", i)
+            elif tag(init) == "lo":
+                roles.setdefault("next_offset", i)
+    return roles
